@@ -585,7 +585,7 @@ func (e *Engine) permutedEntries(st *St, mc *MapC) *MapC {
 	}
 	for _, en := range mc.E {
 		if !en.P.IsTrue() {
-			e.unsupported("symbolic map order over a map with symbolic presence")
+			e.unsupported(fmt.Sprintf("symbolic map order over a map with symbolic presence (%d entries, presence %s)", len(mc.E), en.P))
 		}
 	}
 	var perms [][]int
